@@ -104,6 +104,9 @@ def run_jobs(jobs, nproc=None, progress=True):
                 results.append(r)
     if progress:
         sys.stderr.write("[runner] %d jobs in %.1fs\n" % (len(jobs), time.time() - t0))
+        if os.environ.get("VERIF_TIMING"):
+            for r in sorted(results, key=lambda r: -r.wall)[:12]:
+                sys.stderr.write("[runner]   %6.1fs  %s\n" % (r.wall, r.job.tag))
     return results
 
 
